@@ -19,13 +19,16 @@ import (
 	"sort"
 
 	"google.golang.org/protobuf/types/known/structpb"
+	metav1 "k8s.io/apimachinery/pkg/apis/meta/v1"
 	"k8s.io/apimachinery/pkg/apis/meta/v1/unstructured"
 	"k8s.io/apimachinery/pkg/runtime"
+	"k8s.io/apimachinery/pkg/runtime/schema"
 	k8snames "k8s.io/apiserver/pkg/storage/names"
 	"sigs.k8s.io/controller-runtime/pkg/client"
 	"sigs.k8s.io/controller-runtime/pkg/client/apiutil"
 
 	"github.com/crossplane/crossplane-runtime/pkg/resource"
+	ucomposite "github.com/crossplane/crossplane-runtime/pkg/resource/unstructured/composite"
 
 	fnv1 "github.com/crossplane/crossplane/apis/apiextensions/fn/proto/v1"
 	v1 "github.com/crossplane/crossplane/apis/apiextensions/v1"
@@ -49,6 +52,124 @@ type c01Scn struct {
 	Stale []bool `json:"stale,omitempty"`
 	// StaleSel (generator only): rounds for which a lagging read is requested.
 	StaleSel []bool `json:"-"`
+	// NS[i][rname] (function mode): the metadata.namespace the function emits for desired resource
+	// rname in round i ("" / absent = none: cluster scoped). Namespaced composed resources appear in
+	// the observation, the references, the call trace, the cache misses and hints.gen under the
+	// QUALIFIED name "<name>@<namespace>": the model's names are opaque strings, so a composed
+	// resource's identity (namespace, name) is one model name, and "a desired resource that matches
+	// an observed one inherits its name" (renderFn / renderFnT) is inheritance of namespace AND name,
+	// as in FunctionComposer.Compose (cd.SetNamespace(observed); cd.SetName(observed)). The model is
+	// not told the namespaces; it is told the qualified candidates the generator drew.
+	NS []map[string]string `json:"ns,omitempty"`
+}
+
+func c01Qual(ns, name string) string {
+	if ns == "" {
+		return name
+	}
+	// the namespace FOLLOWS the name: UpdateResourceRefs sorts the references by
+	// apiVersion+kind+name (the namespace is not part of its key), the model by kind ++ name
+	return name + "@" + ns
+}
+
+// c01View is xwWorld.view with namespace-qualified names.
+func c01View(w *xwWorld) ([]xwRef, []xwObj) {
+	xr := ucomposite.New()
+	xr.SetUnstructuredContent(w.St.Peek(xwXRGVK.GroupKind(), "", xwXRName).Object)
+	refs := []xwRef{}
+	for _, r := range xr.GetResourceReferences() {
+		gv, _ := schema.ParseGroupVersion(r.APIVersion)
+		refs = append(refs, xwRef{Kind: xwModelKind(gv.Group, r.Kind), Name: c01Qual(r.Namespace, r.Name)})
+	}
+	sort.Slice(refs, func(i, j int) bool { return refs[i].Kind+"/"+refs[i].Name < refs[j].Kind+"/"+refs[j].Name })
+	objs := []xwObj{}
+	owner := xwFieldOwner(w.XRUID)
+	for _, k := range xwKinds {
+		for _, u := range w.St.OfKind(xwKindGVK(k).GroupKind()) {
+			o := xwObj{Kind: k, Name: c01Qual(u.GetNamespace(), u.GetName()), Annot: u.GetAnnotations()[xwAnnot], Ctrl: "none"}
+			if c := metav1.GetControllerOf(u); c != nil {
+				if string(c.UID) == w.XRUID {
+					o.Ctrl = "xr"
+				} else {
+					o.Ctrl = "other"
+				}
+			}
+			o.Fin = len(u.GetFinalizers()) > 0
+			o.Deleting = u.GetDeletionTimestamp() != nil
+			c, _, _ := unstructured.NestedInt64(u.Object, "spec", "content")
+			o.Content = int(c)
+			for _, mf := range u.GetManagedFields() {
+				if mf.Manager == owner {
+					o.SSA = true
+				}
+			}
+			objs = append(objs, o)
+		}
+	}
+	sort.Slice(objs, func(i, j int) bool { return objs[i].Kind+"/"+objs[i].Name < objs[j].Kind+"/"+objs[j].Name })
+	return refs, objs
+}
+
+// c01CheckInstantNS: NoLeak and at-most-one-per-name on the real store with the full identity
+// (kind, namespace, name) of composed resources; called after every API call in scenarios with
+// namespaced resources (xwWorld.checkInstant compares kind and name only).
+func c01CheckInstantNS(w *xwWorld) {
+	refs, objs := c01View(w)
+	in := map[string]bool{}
+	for _, r := range refs {
+		in[r.Kind+"/"+r.Name] = true
+	}
+	per := map[string][]string{}
+	for _, o := range objs {
+		if o.Ctrl != "xr" || o.Deleting {
+			continue
+		}
+		if !in[o.Kind+"/"+o.Name] {
+			w.mon("C01:leak", fmt.Sprintf("live composed resource %s/%s controlled by the XR is not in spec.resourceRefs", o.Kind, o.Name))
+		}
+		if o.Annot != "" {
+			per[o.Annot] = append(per[o.Annot], o.Name)
+		}
+	}
+	for n, names := range per {
+		if len(names) > 1 {
+			sort.Strings(names)
+			w.mon("C01:duplicate", fmt.Sprintf("desired resource name %q has %d live composed resources: %v", n, len(names), names))
+		}
+	}
+}
+
+// c01QualifyRound rewrites the observation of a round with namespace-qualified names: the call
+// trace (from the store's log; a name-availability probe, which carries no namespace in the code -
+// client.ObjectKey{Name: name} - is shown under the namespace of the resource the candidate was
+// drawn for, as the model's probe is), the references and the objects.
+func c01QualifyRound(w *xwWorld, nm *c01Namer, ns map[string]string, o *xwRoundObs) {
+	candNS := map[string]string{}
+	for _, p := range nm.rec {
+		candNS[p[1]] = ns[p[0]]
+	}
+	calls := []string{}
+	for _, c := range w.St.Log {
+		pgk := schema.ParseGroupKind(c.GK)
+		gk := xwModelKind(pgk.Group, pgk.Kind)
+		name := c01Qual(c.NS, c.Name)
+		if c.NS == "" && c.Verb == "get" && gk != xwXRGVK.Kind {
+			if n, ok := candNS[c.Name]; ok {
+				name = c01Qual(n, c.Name)
+			}
+		}
+		e := fmt.Sprintf("%s %s/%s", c.Verb, gk, name)
+		if c.Sub != "" {
+			e += "/" + c.Sub
+		}
+		if c.PatchType != "" {
+			e += " " + c.PatchType
+		}
+		e += " " + c.Outcome + ">" + c.Err
+		calls = append(calls, e)
+	}
+	o.Calls = calls
+	o.Refs, o.Objs = c01View(w)
 }
 
 // c01Cache is the cached client of C01's reconciler: xwCache (cache misses of composed resources)
@@ -94,6 +215,8 @@ type c01Namer struct {
 	taken    int         // taken candidates drawn this round
 	// the outdated version of the XR the next read of the XR returns (nil = reads are fresh)
 	staleXR *unstructured.Unstructured
+	// metadata.namespace the function emits per desired resource name in the current round
+	ns map[string]string
 }
 
 func (n *c01Namer) startRound(plan []int) {
@@ -175,7 +298,11 @@ func c01NewReconciler(w *xwWorld, mode string, nm *c01Namer) *composite.Reconcil
 		}
 		rsp := &fnv1.RunFunctionResponse{Desired: &fnv1.State{Resources: map[string]*fnv1.Resource{}}}
 		for _, d := range rd.Desired {
-			s, _ := structpb.NewStruct(map[string]any{"apiVersion": xwAPIVersion(d.Kind, rd.Ver), "kind": xwKindGVK(d.Kind).Kind, "spec": map[string]any{"content": d.Content}})
+			m := map[string]any{"apiVersion": xwAPIVersion(d.Kind, rd.Ver), "kind": xwKindGVK(d.Kind).Kind, "spec": map[string]any{"content": d.Content}}
+			if n := nm.ns[d.RName]; n != "" {
+				m["metadata"] = map[string]any{"namespace": n}
+			}
+			s, _ := structpb.NewStruct(m)
 			rdy := fnv1.Ready_READY_FALSE
 			if d.Ready {
 				rdy = fnv1.Ready_READY_TRUE
